@@ -670,7 +670,7 @@ def run(ck):
         ck.cov["traces_validated_against_impl"] += nlines
         ck.cov["distinct_nontrivial"] += nlines
         ck.cov["input_distribution"]["exhaustive_histories"] = nlines
-        ck.cov["exhaustive"] = "all histories of length <= k over the stated alphabets (quick: k=6, k=7 for capacity 2x2, SimpleBus k=9; thorough: k=7 for 1x1,1x2,2x1,2x2,3x3 and k=6 for 1x3,3x1,4x4, SimpleBus k=10)"
+        ck.cov["exhaustive_note"] = "all histories of length <= k over the stated alphabets (quick: k=6, k=7 for capacity 2x2, SimpleBus k=9; thorough: k=7 for 1x1,1x2,2x1,2x2,3x3 and k=6 for 1x3,3x1,4x4, SimpleBus k=10)"
         ck.cov["samples"] += [r[2] for r in results[:2] if r[2]]
         if exh_diff:
             # shortest differing histories first: decide the property on them
